@@ -26,7 +26,9 @@ PosLists == {<<"T1">>, <<"T2">>, <<"T1", "T2">>, <<"T2", "T1">>, <<"T1", "T1">>,
 FieldLists == {<<>>} \cup {<<Fld("Alpha", "T1", g)>> : g \in Tags} \cup {<<Fld("BETA", "T2", g)>> : g \in Tags}
               \cup {<<Fld("Alpha", "T1", g), Fld("BETA", "T2", h)>> : g \in Tags, h \in Tags}
               \cup {<<Fld("BETA", "T2", g), Fld("Alpha", "I1", "none")>> : g \in Tags}
+\* (256 and 257 pointers: a depth that does not fit the byte the library counts in)
 Sides == {NoSide} \cup {PosSide(ts) : ts \in PosLists} \cup {StructSide(p, fs) : p \in 0..2, fs \in FieldLists}
+         \cup {StructSide(p, <<Fld("Alpha", "T1", "none")>>) : p \in {3, 255, 256, 257}}
 SimpleSides == {NoSide, PosSide(<<"T2">>), StructSide(0, <<Fld("Alpha", "T1", "none")>>)}
 
 Descs == { [inp |-> i, out |-> o, errpos |-> e, special |-> ""] : i \in Sides, o \in SimpleSides, e \in {"none", "final"} }
